@@ -77,6 +77,7 @@ type dynRunner struct {
 	last   Resp
 	bubble bool
 	nNext  int
+	slots  map[int]*ysgo.Snapshot
 }
 
 func newDyn(w *World, bubble bool) (*dynRunner, error) {
@@ -120,8 +121,18 @@ func (d *dynRunner) apply(op *Op) *Resp {
 		}
 	case "advance":
 		if d.bubble {
-			time.Sleep(time.Duration(op.Ns))
-			settle(true)
+			sleepInBubble(time.Duration(op.Ns))
+		}
+	case "snapshot":
+		if d.slots == nil {
+			d.slots = map[int]*ysgo.Snapshot{}
+		}
+		d.slots[op.Slot] = d.h.dr.Snapshot()
+	case "restore":
+		if s, ok := d.slots[op.Slot]; ok {
+			if err, pv := safeRestore(d, s); err == nil && pv == nil {
+				d.last = Resp{}
+			}
 		}
 	case "release_all":
 		n := d.h.nInvs()
